@@ -737,6 +737,7 @@ void Data::fromStringByIndex(int i, const string &value)
     break;
   case DataFormat::STRING:
     stringByIndex(i) = value;
+    break;
   case DataFormat::POINT: {
     point_t p;
     int pos;
